@@ -112,6 +112,35 @@ def shard(args):
                                                                     for k, v in m.items()}))
     acc.inc('distinct_pdus', len(seen))
     acc.add('classes', (kind, fc))
+    # documented convenience forms of the constructors: a scalar where a one-element list is meant
+    if kind == 'req' and fc in (0x0F, 0x10, 0x17, 8):
+        for v in (0, 1, 0x7B, 0xFFFF) if fc != 0x0F else (False, True, 0, 1):
+            if fc == 0x10:
+                o = bind.REQ[fc](0x0102, v)
+                want = pdu.encode(dict(kind='req', fc=fc, address=0x0102, count=1, byte_count=2, registers=[v]))
+            elif fc == 0x0F:
+                o = bind.REQ[fc](0x0102, v)
+                want = pdu.encode(dict(kind='req', fc=fc, address=0x0102, count=1, byte_count=1, bits=[bool(v)]))
+                if not v:
+                    continue            # the documented falsy form means 'no values'; only truthy scalars are a one-coil write
+            elif fc == 0x17:
+                o = bind.REQ[fc](read_address=1, read_count=2, write_address=3, write_registers=v)
+                want = pdu.encode(dict(kind='req', fc=fc, read_address=1, read_count=2, write_address=3, write_count=1,
+                                       write_byte_count=2, write_registers=[v]))
+            else:
+                import pymodbus.diag_message as dm
+                o = dm.ReturnQueryDataRequest(v)
+                want = pdu.encode(dict(kind='req', fc=8, sub=0, data=[v]))
+            acc.inc('evaluations')
+            try:
+                got = bind.pdu_bytes(o)
+            except Exception as e:   # noqa
+                got = repr(e).encode()
+            if got != want:
+                acc.violation('C01/%s/enc/scalar-argument' % type(o).__name__,
+                              dict(cls=type(o).__name__, dir='scalar', side='req', pdu=want.hex(), value=int(v)),
+                              'constructor given the scalar %r encodes %s, expected %s' % (v, got.hex() if isinstance(got, bytes) else got, want.hex()),
+                              type(o).__name__)
     # exception responses produced by doException for every request class
     if kind == 'req':
         m0 = next(gen.messages(kind, fc, 'quick'))
@@ -157,6 +186,10 @@ def replay(w):
     m = pdu.decode(side, raw)
     lines = ['class %s pdu %s' % (w['cls'], w['pdu'][:120])]
     bad = False
+    if w['dir'] == 'scalar':
+        acc = shard(('req', m['fc'], 'quick'))
+        vs = [v for v in acc.violations if v['witness'] == w]
+        return bool(vs), '\n'.join(v['msg'] for v in vs) or 'no violation'
     if w['dir'] == 'enc':
         r = check_enc(m, side)
         lines.append('encode: %s' % (r[:2] if r else 'matches reference',))
